@@ -590,6 +590,11 @@ func Run(repo, outDir string) ([]string, error) {
 	if err := writeIfChanged(filepath.Join(outDir, "TypeSwitchGen.v"), ts); err != nil {
 		return nil, err
 	}
+	cg, cgProblems := cursorGen(pkgs)
+	problems = append(problems, cgProblems...)
+	if err := writeIfChanged(filepath.Join(outDir, "CursorGen.v"), cg); err != nil {
+		return nil, err
+	}
 	fp, fpProblems := footprint(pkgs)
 	problems = append(problems, fpProblems...)
 	if err := writeIfChanged(filepath.Join(outDir, "FootprintGen.v"), fp); err != nil {
